@@ -107,6 +107,20 @@ func c03Wire(c *lib.Ctx, g *c3Gen) {
 	add(c3List(kw(":return"), c3List(kw(":ok"), c3List(kw(":pid"), c3I(4242), kw(":version"), c3Str("2.27"), kw(":features"), c3Nil())), c3I(1)))
 	add(c3List(kw(":return"), c3List(kw(":abort"), c3Str("error: \"x\" is not bound")), c3I(12)))
 	add(c3List(kw(":ping"), c3I(1), c3I(2)))
+	// payload lengths around the header's digit boundaries (16^3, 16^4) and the 1 MiB cap
+	for _, target := range []int{4095, 4096, 4097, 65535, 65536, 65537, 1048575, 1048576} {
+		n := target - 19
+		var msg *c3Obj
+		for try := 0; try < 4; try++ {
+			msg = c3List(kw(":write-string"), c3Str(strings.Repeat("x", n)))
+			_, payload, _ := c3WireRoundtrip(msg)
+			if len(payload) == target || len(payload) == 0 {
+				break
+			}
+			n += target - len(payload)
+		}
+		add(msg)
+	}
 	nRandom := c.Scale(600, 6000)
 	for i := 0; i < nRandom; i++ {
 		var leaf func(d int) *c3Obj
